@@ -156,3 +156,18 @@ Theorem C04_first_run_example :
   /\ s_deleted s = [1; 2] /\ s_warc s = [1] /\ s_failed s = [2].
 Proof. exact first_run_example. Qed.
 Print Assumptions C04_first_run_example.
+
+(* "Resumes all unfinished seeds", as a possibility theorem over every history: once the job is
+   started again, EVERY row still in the table - none is stranded as handed-out - can be handed out,
+   pre-processed, fetched unless the seen-store holds it, finished and deleted: that continuation is
+   a run of the model and leaves the table empty (each of those rows is then accounted for by
+   C04_deleted_seed_accounted). *)
+From ZenoV Require Import Pipe.CrashResume.
+Theorem C04_resume_completes : forall sc ids ls s s',
+  NoDup ids -> srun (sinit sc ids) ls = Some s -> sstep s SRestart = Some s' ->
+  exists s2 s3, drive s' (srow_list s') = Some s2
+                /\ sstep s2 (SDelete (srow_list s')) = Some s3
+                /\ s_rows s3 = []
+                /\ (forall i, In i (srow_list s') -> In i (s_deleted s3)).
+Proof. exact resume_completes. Qed.
+Print Assumptions C04_resume_completes.
